@@ -244,3 +244,52 @@ def sort_fields_loop(fields, required, required_2, optional, _it, _seq):
         "seen_only": forall(optional, lambda k: exists(range(_it), lambda j: _seq[j] is k)) and forall(required, lambda k: exists(range(_it), lambda j: _seq[j] is k))
         and forall(required_2, lambda k: exists(range(_it), lambda j: _seq[j] is k)),
     }
+
+
+# --------------------------------------------------------------------------------------------- module assembly (C19, C14, C12)
+@contract("json_to_models/models/base.py::_generate_code", props=["C12"], verify=False)
+class GenerateCodeRec:
+    """walks the structure; may rename models (class-name conversion) and may raise anything a generator raises"""
+    sorts = {"result": "tuple"}
+    modifies = ["_name", "_name_generated", "__cache__"]
+
+    def raises(self, structure, class_generator, class_generator_kwargs, lvl):
+        return {"*": True}
+
+    def ensures(self, structure, class_generator, class_generator_kwargs, lvl, result):
+        return {"pair": seq_len(result) == 2 and ty_is(at(result, 0), list) and ty_is(at(result, 1), list)}
+
+
+@contract("json_to_models/dynamic_typing/typing.py::compile_imports", props=["C03"], verify=False)
+class CompileImports:
+    sorts = {"imports": "list", "result": "str"}
+
+
+@contract("json_to_models/models/base.py::generate_code", props=["C19", "C14", "C15"])
+class GenerateCode:
+    """C19: output = imports block (if any) + preamble block (if given and non-empty: exactly once, after the imports,
+    before the first class) + classes joined by the delimiter + newline.
+    C14/C15: the thread-local reference context is left exactly as found, on normal and on exceptional exit."""
+    sorts = {"structure": "tuple", "objects_delimiter": "str", "result": "str", "imports": "list", "classes": "list",
+             "imports_str": "str", "class_generator_kwargs": "any", "preamble": "any"}
+    modifies = ["_name", "_name_generated", "__cache__", "context", "$def:context", "_old"]
+
+    def requires(self, structure, class_generator, class_generator_kwargs, objects_delimiter, preamble):
+        return {"structure_is_pair": seq_len(structure) == 2,
+                "preamble_str_or_none": is_none(preamble) or ty_is(preamble, str)}
+
+    def raises(self, structure, class_generator, class_generator_kwargs, objects_delimiter, preamble):
+        return {"*": True}
+
+    def ensures(self, structure, class_generator, class_generator_kwargs, objects_delimiter, preamble, result):
+        imports = local("imports")
+        classes = local("classes")
+        imp_block = (compile_imports(imports) + objects_delimiter) if seq_len(imports) > 0 else ""
+        pre_block = (sval(preamble) + objects_delimiter) if (not is_none(preamble) and len(sval(preamble)) > 0) else ""
+        return {
+            "layout@C19": result == imp_block + pre_block + objects_delimiter.join(classes) + "\n",
+            "context_restored@C14,C15": tl_get(AbsoluteModelRef.Context.data, "context") is old(tl_get(AbsoluteModelRef.Context.data, "context")),
+        }
+
+    def ensures_exc(self, structure, class_generator, class_generator_kwargs, objects_delimiter, preamble):
+        return {"context_restored_on_failure@C14,C15": tl_get(AbsoluteModelRef.Context.data, "context") is old(tl_get(AbsoluteModelRef.Context.data, "context"))}
